@@ -244,7 +244,18 @@ def run(rep, pdb, tier):
             # the match: Some(i) => i, None => size-1
             ms = [n for n in walk(fn["body"]) if n.get("k") == "Match"]
             okm = len(ms) == 1
-            if okm:
+            iflets = [n for n in walk(fn["body"]) if n.get("k") == "If" and isinstance(n.get("cond"), dict) and n["cond"].get("k") == "LetCond" and strip(n["cond"]["init"]) is p_]
+            notfound = lambda nt: nt == lin_add(N0, num(-1)) or (nt[0] == "call" and str(nt[1]).endswith("::saturating_sub") and nt[2:] == (N0, num(1)))
+            if not ms and len(iflets) == 1:
+                # `if let Some(i) = position(..) { return i; }  <not-found value>`
+                il = iflets[0]
+                pk = il["cond"]["pat"]
+                inner = (pk.get("ps") or [f["pat"] for f in pk.get("fields", [])]) if str(pk.get("path", "")).endswith("Some") else []
+                rets = [x_ for x_ in walk(il["then"]) if x_.get("k") == "Ret"]
+                tail = fn["body"].get("expr")
+                okm = len(inner) == 1 and inner[0].get("k") == "Bind" and len(rets) == 1 and ctx.term(rets[0]["e"]) == ("var", inner[0]["v"]) and \
+                    il.get("else") is None and tail is not None and notfound(ctx.term(tail))
+            elif okm:
                 arms = ms[0]["arms"]
                 vals = {}
                 for a in arms:
